@@ -18,13 +18,19 @@ AbsS(e) == IF FlipS(e) < 0 THEN FlipS(e) + 86400 ELSE FlipS(e)
 US(e) == {e.units[i] : i \in 1..Len(e.units)}
 AllZero(v) == v.w = 0 /\ v.d = 0 /\ v.H = 0 /\ v.M = 0 /\ v.S = 0
 TSplit == /\ l <= Len(Tr) /\ Ev.e = "Split"
-          /\ LET v == Split(AbsD(Ev), AbsS(Ev), US(Ev)) IN
+          /\ LET v == Split2(AbsD(Ev), AbsS(Ev), US(Ev)) IN
              /\ \A u \in US(Ev) : Ev.vals[u] = v[u]
              \* a negative total that truncates to zero may be printed as -0 (still one leading sign)
              /\ IF Neg(Ev) /\ ~AllZero(v) THEN Ev.minus = 1 /\ Ev.lead
                 ELSE Ev.minus = 0 \/ (Ev.minus = 1 /\ Ev.lead /\ Neg(Ev))
           /\ l' = l + 1 /\ UNCHANGED vars
-TNext == TSplit
+\* seconds as the only unit for spans that do not fit TLC's 32-bit integers: the printed number is re-encoded as
+\* <<number div 86400, number mod 86400>> and must be the magnitude <<days, seconds>> of the difference
+TBigS == /\ l <= Len(Tr) /\ Ev.e = "BigS"
+         /\ Ev.hi = AbsD(Ev) /\ Ev.lo = AbsS(Ev)
+         /\ IF Neg(Ev) THEN Ev.minus = 1 /\ Ev.lead ELSE Ev.minus = 0
+         /\ l' = l + 1 /\ UNCHANGED vars
+TNext == TSplit \/ TBigS
 TSpec == TInit /\ [][TNext]_<<vars, l>>
 Accepted == TLCGet("stats").diameter - 1 = Len(Tr)
 =============================================================================
